@@ -58,6 +58,11 @@ def gen_cases(ck):
     for m in (5, 6, 7, 100, 255):
         for d in "ed":
             cases.append(Case("mode %s %d %s %s %s" % (d, m, rb(r, 16).hex(), rb(r, 20).hex(), rb(r, 32).hex()), "mode", "factory/out-of-range", True))
+    # the stream at an address that is not a multiple of 4 (a payload behind a 1..3-byte header): driver op modeu
+    for m in range(5):
+        for d in "ed":
+            for nb in (1, 3):
+                cases.append(Case("modeu %s %d %s %s %s" % (d, m, rb(r, 16).hex(), rb(r, 20).hex(), rb(r, 16 * nb).hex()), "mode", "mode%d/%s/misaligned-stream" % (m, d)))
     # streams whose blocks are related to the blocks the same object saw / produced before (common.feedback_streams)
     specs = [(d, m, rb(r, 16), rb(r, 20)) for m in range(5) for d in "ed" for _ in range(8 if big else 2)]
     for (d, m, k, iv), (data, _, rel) in zip(specs, feedback_streams(ck, specs, 7)):
